@@ -95,7 +95,8 @@ def primary_of(rec):
 
 def g2_of(rec):
     e = rec["epoch_ext"]
-    s = P["secondary_epoch_reward"]
+    # the genesis block was built with the chain spec's value; later blocks use the consensus value in force
+    s = P["genesis_secondary_epoch_reward"] if rec["number"] == 0 else P["secondary_epoch_reward"]
     return s // e["length"] + (1 if rec["number"] - e["start"] < s % e["length"] else 0)
 
 
@@ -389,6 +390,7 @@ def check_block(rec):
             if outs:
                 mismatch("cellbase.output_despite_insufficient_reward", rec, [], outs, ctx)
         else:
+            cnt("cellbase_paid_reward")
             if actual != expected or len(outs) != 1:
                 base = T["_primary"] + secondary + committer
                 if t == 1 and proposer_not_last > 0 and actual == expected - proposer_not_last:
